@@ -106,7 +106,7 @@ func c17Int(g *g17, count int) {
 				if ok == ct.False {
 					return "none"
 				}
-				if y.val().Sign() != 0 && al == 0 {
+				if y.val().Sign() != 0 && al == 0 && (name == "div" || name == "ediv") { // the var-time variants are decided by the driver (own keys)
 					wq, wr := new(big.Int), new(big.Int)
 					if name == "div" || name == "divvt" {
 						wq.QuoRem(x.val(), y.val(), wr) // truncated
